@@ -147,6 +147,8 @@ class GenModel:
                 m = {}
                 for nw in [n for n in f.all_nodes() if n.k == 'CXXNewExpr']:
                     cls = f.tu.types[nw.r['alloc']].get('rec') or f.tu.types[nw.r['alloc']]['c']
+                    if not any(b.get('q') == 'FIX8::GroupBase' for b in self.records.get(cls, {}).get('bases', [])):
+                        continue          # only `new <group class>`
                     # the pair {num, new X}
                     p = nw.parent
                     key = None
